@@ -251,6 +251,10 @@ def thread_roles(cg):
         if not cl:
             continue
         name = owner.split("::")[-1]
+        if "::ValidatorDispatcher::<" in owner:
+            # whichever dispatcher method holds the spawn (dispatch_by_id today; a spawn helper after a split), the thread
+            # it starts is a per-link validator: the role keeps the historical name used as key by the rules
+            name = "dispatch_by_id"
         r = reach_excl([cl], spawned - {cl})
         roles.setdefault(name, set()).update(r)
     return roles, sp
